@@ -13,7 +13,7 @@ META = {
         "thorough": "all command codes; pairs of nested size fields; lengths 0..min(m+4,14)",
     },
     "outside": "more than two symbolic size fields at once; regions nested deeper than the types allow",
-    "wall_budget_s": {"quick": 270, "thorough": 1500},
+    "wall_budget_s": {"quick": 270, "thorough": 840},
 }
 
 CORE = ("Startup", "GetRandom", "CreatePrimary", "NV_Read", "StartAuthSession", "Commit")
